@@ -69,26 +69,26 @@ theorem getScriptOp_some {s : Bytes} {o : Nat} {p rest : Bytes} (h : Spec.getScr
       obtain ⟨ho, _, hr⟩ := h
       exact ⟨b, r, 1, rfl, ho.symm, by rw [← hr]; rfl, by omega, by simp, fun _ => rfl⟩
 
-/-! ## `get_opcodes` on a script whose pushes are complete -/
+/-! ## the walk of `delete_subscript` is Core's decoder, on every script -/
 
-theorem getOpcodes_end (script : Bytes) (pc : Nat) (h : ¬ pc < script.length) :
-    Script.getOpcodes script false pc = ([], none) := by
-  rw [Script.getOpcodes]
+theorem sectionsFrom_end (script : Bytes) (pc : Nat) (h : ¬ pc < script.length) :
+    sectionsFrom script pc = .ok ([], []) := by
+  rw [sectionsFrom]
   simp [h]
 
-theorem getOpcodes_step (script : Bytes) (pc : Nat) (b : UInt8) (r : Bytes) (hd : script.drop pc = b :: r)
+theorem sectionsFrom_step (script : Bytes) (pc : Nat) (b : UInt8) (r : Bytes) (hd : script.drop pc = b :: r)
     (o : Nat) (p rest : Bytes) (hg : Spec.getScriptOp (b :: r) = some (o, p, rest)) :
-    Script.getOpcodes script false pc =
-      (⟨b, Spec.pushValue o p, pc, script.length - rest.length⟩ ::
-        (Script.getOpcodes script false (script.length - rest.length)).1,
-       (Script.getOpcodes script false (script.length - rest.length)).2) := by
+    sectionsFrom script pc =
+      match sectionsFrom script (script.length - rest.length) with
+      | .error e => .error e
+      | .ok (secs, tail) => .ok (slice script pc (script.length - rest.length) :: secs, tail) := by
   have hlt : pc < script.length := by
     have := (drop_facts hd).2.2; omega
   have hop : getOpcode script pc false = .ok ⟨b, Spec.pushValue o p, script.length - rest.length, true⟩ := by
     rw [getOpcode_refines script pc false b r hd]
     unfold coreAnswer
     simp [hg]
-  rw [Script.getOpcodes]
+  rw [sectionsFrom]
   simp only [hlt, dite_true]
   split
   · rename_i e he
@@ -99,18 +99,16 @@ theorem getOpcodes_step (script : Bytes) (pc : Nat) (b : UInt8) (r : Bytes) (hd 
     cases he
     rfl
 
-theorem getOpcodes_step_trunc (script : Bytes) (pc : Nat) (b : UInt8) (r : Bytes) (hd : script.drop pc = b :: r)
+theorem sectionsFrom_trunc (script : Bytes) (pc : Nat) (b : UInt8) (r : Bytes) (hd : script.drop pc = b :: r)
     (hg : Spec.getScriptOp (b :: r) = none) :
-    Script.getOpcodes script false pc =
-      (⟨b, none, pc, truncPc pc b.toNat r⟩ :: (Script.getOpcodes script false (truncPc pc b.toNat r)).1,
-       (Script.getOpcodes script false (truncPc pc b.toNat r)).2) := by
+    sectionsFrom script pc = .ok ([], script.drop pc) := by
   have hlt : pc < script.length := by
     have := (drop_facts hd).2.2; omega
   have hop : getOpcode script pc false = .ok ⟨b, none, truncPc pc b.toNat r, false⟩ := by
     rw [getOpcode_refines script pc false b r hd]
     unfold coreAnswer
     simp [hg]
-  rw [Script.getOpcodes]
+  rw [sectionsFrom]
   simp only [hlt, dite_true]
   split
   · rename_i e he
@@ -124,31 +122,30 @@ theorem getOpcodes_step_trunc (script : Bytes) (pc : Nat) (b : UInt8) (r : Bytes
 theorem drop_nil_of_not_lt (script : Bytes) (pc : Nat) (h : ¬ pc < script.length) : script.drop pc = [] :=
   List.drop_eq_nil_of_le (by omega)
 
-theorem getOpcodes_complete (script : Bytes) : ∀ (fuel pc : Nat), script.length - pc ≤ fuel →
-    (instructions fuel (script.drop pc)).2 = [] →
-    (Script.getOpcodes script false pc).2 = none ∧
-    (Script.getOpcodes script false pc).1.map (fun it => slice script it.pc it.newPc) =
-      (instructions fuel (script.drop pc)).1.map (·.2) := by
+/-- from any position, the walk yields the instructions Core's `GetScriptOp` decodes and stops where it fails -/
+theorem sectionsFrom_eq (script : Bytes) : ∀ (fuel pc : Nat), script.length - pc ≤ fuel →
+    sectionsFrom script pc =
+      .ok ((instructions fuel (script.drop pc)).1.map (·.2), (instructions fuel (script.drop pc)).2) := by
   intro fuel
   induction fuel with
   | zero =>
-    intro pc hf _
+    intro pc hf
     have hlt : ¬ pc < script.length := by omega
-    rw [getOpcodes_end script pc hlt]
+    rw [sectionsFrom_end script pc hlt, drop_nil_of_not_lt script pc hlt]
     simp [instructions]
   | succ f ih =>
-    intro pc hf hc
+    intro pc hf
     by_cases hlt : pc < script.length
     · have hd : script.drop pc = script[pc] :: script.drop (pc + 1) := List.drop_eq_getElem_cons hlt
       generalize script[pc] = b at hd
       generalize script.drop (pc + 1) = r at hd
-      rw [hd] at hc ⊢
-      unfold instructions at hc ⊢
       cases hg : Spec.getScriptOp (b :: r) with
-      | none => simp [hg] at hc
+      | none =>
+        rw [sectionsFrom_trunc script pc b r hd hg, hd]
+        unfold instructions
+        simp [hg]
       | some t =>
         obtain ⟨o, p, rest⟩ := t
-        simp only [hg] at hc ⊢
         obtain ⟨b', r', k, hs, ho, hrest, hk1, hk2, _⟩ := getScriptOp_some hg
         have hlen := (drop_facts hd).2.2
         have hrl : rest.length = (b :: r).length - k := by rw [hrest, List.length_drop]
@@ -156,36 +153,38 @@ theorem getOpcodes_complete (script : Bytes) : ∀ (fuel pc : Nat), script.lengt
         have hnew : script.length - rest.length = pc + k := by omega
         have hdrop : script.drop (pc + k) = rest := by
           rw [← List.drop_drop, hd, hrest]
-        rw [getOpcodes_step script pc b r hd o p rest hg, hnew]
-        have := ih (pc + k) (by omega) (by rw [hdrop]; exact hc)
-        rw [hdrop] at this
-        refine ⟨this.1, ?_⟩
-        simp only [List.map_cons, this.2]
-        congr 1
+        rw [sectionsFrom_step script pc b r hd o p rest hg, hnew, ih (pc + k) (by omega), hdrop, hd]
+        conv => rhs; unfold instructions
+        simp only [hg, List.map_cons]
+        congr 3
         rw [slice_drop script (b :: r) pc k hd]
         congr 1
         simp only [List.length_cons]
         omega
-    · rw [getOpcodes_end script pc hlt, drop_nil_of_not_lt script pc hlt]
+    · rw [sectionsFrom_end script pc hlt, drop_nil_of_not_lt script pc hlt]
       simp [instructions, Spec.getScriptOp]
 
 /-- the instruction sections of a script, by Core's decoder -/
 def instrSections (s : Bytes) : List Bytes := (instructions s.length s).1.map (·.2)
 
-theorem sections_complete (script : Bytes) (hc : Complete script) : sections script = .ok (instrSections script) := by
-  have := getOpcodes_complete script script.length 0 (by omega) (by rw [List.drop_zero]; exact hc)
-  unfold sections
-  generalize Script.getOpcodes script false 0 = g at this
-  obtain ⟨items, e⟩ := g
-  simp only at this
-  obtain ⟨h1, h2⟩ := this
-  subst h1
-  simp only [h2, instrSections, List.drop_zero]
+/-- what Core's decoder leaves undecoded: empty, or starting with a push cut short by the end of the script -/
+def instrTail (s : Bytes) : Bytes := (instructions s.length s).2
+
+theorem sections_eq (script : Bytes) : sections script = .ok (instrSections script, instrTail script) := by
+  have := sectionsFrom_eq script script.length 0 (by omega)
+  rw [List.drop_zero] at this
+  exact this
+
+/-- `delete_subscript` on any script: the decodable instructions that differ from `sub`, then the undecodable rest -/
+theorem deleteSubscript_eq (script sub : Bytes) :
+    deleteSubscript script sub = .ok (((instrSections script).filter (fun s => s ≠ sub)).flatten ++ instrTail script) := by
+  simp [deleteSubscript, sections_eq script]
 
 /-- `delete_subscript` on a script whose pushes are complete: the instructions that differ from `subscript` -/
 theorem deleteSubscript_complete (script sub : Bytes) (hc : Complete script) :
     deleteSubscript script sub = .ok ((instrSections script).filter (fun s => s ≠ sub)).flatten := by
-  simp [deleteSubscript, sections_complete script hc]
+  have : instrTail script = [] := hc
+  rw [deleteSubscript_eq, this, List.append_nil]
 
 /-! ## the instruction list of Core's decoder -/
 
@@ -284,29 +283,80 @@ theorem strip_len (l : List (Nat × Bytes)) (hP : ∀ i ∈ l, SepOk i) :
       simp [List.filter_cons, h, h2] at ih ⊢
       omega
 
+theorem instrSections_tail (s : Bytes) : (instrSections s).flatten ++ instrTail s = s :=
+  instructions_flatten s.length s
+
+/-- what `delete_subscript(code, OP_CODESEPARATOR)` keeps of the decodable part -/
+def strippedBody (code : Bytes) : Bytes := ((instrSections code).filter (fun s => s ≠ [0xab])).flatten
+
+/-- Core's `SerializeScriptCode` writes the whole undecodable rest of the script: the rest is empty (every push is
+complete), or the failed `GetScriptOp` left its iterator at the end of the script — the rest is a push opcode alone, or a
+PUSHDATA1/2/4 opcode with its complete length field and not one byte of payload -/
+def TailWritten (s : Bytes) : Prop := (instrTail s).length ≤ failAdvance (instrTail s)
+
+instance (s : Bytes) : Decidable (TailWritten s) := by unfold TailWritten; infer_instance
+
+theorem tailWritten_of_complete {s : Bytes} (h : Complete s) : TailWritten s := by
+  have : instrTail s = [] := h
+  simp [TailWritten, this, failAdvance]
+
+/-- OP_CODESEPARATOR stripping on **every** script: `delete_subscript(script, compile("OP_CODESEPARATOR"))` keeps the
+decodable instructions other than `ab` and then the undecodable rest; its length is the size Core announces
+(`size − #OP_CODESEPARATOR`); Core's `SerializeScriptCode` writes the same bytes, except that of the undecodable rest it
+writes only the part the failed `GetScriptOp` moved over -/
+theorem strip_serializeScriptCode_all (code : Bytes) :
+    deleteSubscript code Gen.Sighash.strippedSubscript = .ok (strippedBody code ++ instrTail code) ∧
+    (strippedBody code ++ instrTail code).length ≤ code.length ∧
+    serializeScriptCode code =
+      Spec.Wire.compactSize (strippedBody code ++ instrTail code).length ++
+        (strippedBody code ++ (instrTail code).take (failAdvance (instrTail code))) := by
+  have h1 := strip_len (instructions code.length code).1 (instructions_sepOk _ _)
+  have h2 := instrSections_tail code
+  have h3 := strip_eq (instructions code.length code).1 (instructions_sepOk _ _)
+  have hlen := congrArg List.length h2
+  simp only [List.length_append] at hlen
+  unfold instrSections instrTail at hlen
+  refine ⟨deleteSubscript_eq code _, ?_, ?_⟩
+  · simp only [List.length_append]
+    show (List.flatten (List.filter (fun s => decide (s ≠ [0xab])) (instrSections code))).length + _ ≤ _
+    unfold instrSections instrTail
+    omega
+  · unfold serializeScriptCode
+    simp only [h3, List.append_assoc]
+    show _ = Spec.Wire.compactSize (List.flatten (List.filter (fun s => decide (s ≠ [0xab])) (instrSections code)) ++ _).length ++ _
+    simp only [List.length_append]
+    unfold instrSections instrTail strippedBody instrSections
+    congr 2
+    omega
+
+/-- the two serialisations of the script code coincide exactly when Core writes the whole undecodable rest -/
+theorem strip_serializeScriptCode_iff (code : Bytes) :
+    serializeScriptCode code = Spec.Wire.varBytes (strippedBody code ++ instrTail code) ↔ TailWritten code := by
+  rw [(strip_serializeScriptCode_all code).2.2]
+  unfold Spec.Wire.varBytes TailWritten
+  constructor
+  · intro h
+    have h1 := List.append_cancel_left (List.append_cancel_left h)
+    have := congrArg List.length h1
+    rw [List.length_take] at this
+    omega
+  · intro h
+    rw [List.take_of_length_le h]
+
 /-- OP_CODESEPARATOR stripping as pycoin does it (`delete_subscript(script, compile("OP_CODESEPARATOR"))`, then the
-length-prefixed write of `TxIn.stream`) is Core's `SerializeScriptCode`, for every script whose pushes are complete -/
+length-prefixed write of `TxIn.stream`) is Core's `SerializeScriptCode`, for every script of which Core writes the whole
+undecodable rest — in particular every script whose pushes are complete -/
+theorem strip_is_serializeScriptCode_tw (code : Bytes) (hc : TailWritten code) :
+    ∃ stripped, deleteSubscript code Gen.Sighash.strippedSubscript = .ok stripped ∧
+      stripped.length ≤ code.length ∧
+      serializeScriptCode code = Spec.Wire.varBytes stripped :=
+  ⟨_, (strip_serializeScriptCode_all code).1, (strip_serializeScriptCode_all code).2.1,
+    (strip_serializeScriptCode_iff code).mpr hc⟩
+
 theorem strip_is_serializeScriptCode (code : Bytes) (hc : Complete code) :
     ∃ stripped, deleteSubscript code Gen.Sighash.strippedSubscript = .ok stripped ∧
       stripped.length ≤ code.length ∧
-      serializeScriptCode code = Spec.Wire.varBytes stripped := by
-  refine ⟨_, deleteSubscript_complete code _ hc, ?_, ?_⟩
-  · have h1 := strip_len (instructions code.length code).1 (instructions_sepOk _ _)
-    have h2 := instrSections_flatten code hc
-    unfold instrSections at h2 ⊢
-    rw [h2] at h1
-    show (List.flatten (List.filter (fun s => decide (s ≠ [0xab])) _)).length ≤ _
-    omega
-  · have h1 := strip_len (instructions code.length code).1 (instructions_sepOk _ _)
-    have h2 := instrSections_flatten code hc
-    have h3 := strip_eq (instructions code.length code).1 (instructions_sepOk _ _)
-    unfold instrSections at h2
-    rw [h2] at h1
-    unfold serializeScriptCode Spec.Wire.varBytes instrSections
-    have hc' : (instructions code.length code).2 = [] := hc
-    simp only [hc', List.take_nil, List.append_nil, h3]
-    show _ = Spec.Wire.compactSize (List.flatten (List.filter (fun s => decide (s ≠ [0xab])) _)).length ++ _
-    congr 2
-    omega
+      serializeScriptCode code = Spec.Wire.varBytes stripped :=
+  strip_is_serializeScriptCode_tw code (tailWritten_of_complete hc)
 
 end Pycoin.Sighash
